@@ -16,6 +16,7 @@ import (
 	"os"
 	"strings"
 	"testing"
+	"time"
 )
 
 func govcToken(t *testing.T, opts ...builderOption) (*Biscuit, ed25519.PublicKey) {
@@ -482,4 +483,41 @@ func TestGovcReplayPolicyOrder(t *testing.T) {
 		}
 	}
 	fmt.Println("NOT-REPRODUCED: the first matching policy decides in every order tried")
+}
+
+// TestGovcReplayLimitIdentity: C11 — a run limit hit while evaluating any block must
+// surface as the exported sentinel (errors.Is), not as a flattened message.
+func TestGovcReplayLimitIdentity(t *testing.T) {
+	pub, priv, _ := ed25519.GenerateKey(rand.Reader)
+	b := NewBuilder(priv)
+	b.AddAuthorityFact(Fact{Predicate: Predicate{Name: "right", IDs: []Term{String("read")}}})
+	tok, err := b.Build()
+	if err != nil {
+		t.Fatal(err)
+	}
+	bb := tok.CreateBlock()
+	for i := 0; i < 4; i++ {
+		bb.AddFact(Fact{Predicate: Predicate{Name: "extra", IDs: []Term{Integer(int64(i))}}})
+	}
+	tok, err = tok.Append(rand.Reader, bb.Build())
+	if err != nil {
+		t.Fatal(err)
+	}
+	a, err := tok.Authorizer(pub, WithWorldOptions(datalog.WithMaxFacts(4), datalog.WithMaxIterations(100), datalog.WithMaxDuration(10*time.Second)))
+	if err != nil {
+		t.Fatal(err)
+	}
+	a.AddPolicy(DefaultAllowPolicy)
+	got := a.Authorize()
+	if got == nil {
+		fmt.Println("REPRODUCED: a block world above the fact limit (1 authority fact + 4 block facts, limit 4) is authorized")
+		t.Fail()
+		return
+	}
+	if !errors.Is(got, datalog.ErrWorldRunLimitMaxFacts) {
+		fmt.Printf("REPRODUCED: the fact limit is hit in block 1 but Authorize returns %q, for which errors.Is(err, ErrWorldRunLimitMaxFacts) is false\n", got.Error())
+		t.Fail()
+		return
+	}
+	fmt.Println("NOT-REPRODUCED: a limit hit in a later block is reported as the sentinel error")
 }
